@@ -53,7 +53,7 @@ def plan(tier, seed):
         sites = None
         if i % 8 in (3, 4, 5):
             sites = ['grain boundaries', 'grain edges', 'grain corners']
-        cfg = precip_gen.gen_config(rng, system=forced, tier=tier, allow_noniso=(i % 5 == 0), grid_class='in_range', sites=sites)
+        cfg = precip_gen.gen_config(rng, system=forced, tier=tier, allow_noniso=(i % 5 == 0), grid_class='in_range', sites=sites, allow_elastic=True)
         cases.append({'cfg': cfg, 'weight': precip_gen.cfg_weight(cfg)})
     # age, then dissolve completely above the solvus (the 'phase has no precipitates' branches with non-zero history)
     for j in range(2 if tier == 'quick' else 16):
